@@ -266,6 +266,29 @@ func estSteps(inputs []scn.Input, tasks []scn.Task) int64 {
 	return est
 }
 
+// clockUsed is set when the tree under test waits on the clock (the
+// instrumenter found Sleep / After / AfterFunc / NewTimer / NewTicker / Tick
+// call sites): runs then draw a clock speed and injected clock jumps.
+var clockUsed = false
+
+var clockTicks = []int64{0, 0, 1, 100, 10000, 1000000, 50000000}
+var clockJumpBy = []int64{1e6, 1e9, 60e9, 3600e9}
+
+// clock draws the per-run clock speed and jump faults (nothing, and no draw from
+// the stream, when the tree does not wait on the clock).
+func (r *rng) clock(s *scn.Scenario, est int64) {
+	if !clockUsed {
+		return
+	}
+	s.Sched.ClockTick = clockTicks[r.n(len(clockTicks))]
+	if r.chance(30) {
+		for k := 1 + r.n(2); k > 0; k-- {
+			s.Faults.ClockJumps = append(s.Faults.ClockJumps, [2]int64{int64(r.n(int(est) + 1)), clockJumpBy[r.n(len(clockJumpBy))]})
+		}
+		sort.Slice(s.Faults.ClockJumps, func(i, j int) bool { return s.Faults.ClockJumps[i][0] < s.Faults.ClockJumps[j][0] })
+	}
+}
+
 func (r *rng) gcSteps(est int64) []int64 {
 	var out []int64
 	if r.chance(35) {
@@ -389,6 +412,7 @@ func genC11CLI(c *corpus, r *rng, seed uint64) *scn.Scenario {
 	}
 	s.Knob = r.knob(knobs)
 	s.Faults = scn.Faults{Seed: r.next(), GCSteps: r.gcSteps(est)}
+	r.clock(s, est)
 	return s
 }
 
@@ -602,6 +626,7 @@ func genC11(c *corpus, seed uint64) *scn.Scenario {
 	s.Sched = r.schedule(est, ntasks)
 	s.Knob = r.knob(knobs)
 	s.Faults = scn.Faults{Seed: r.next(), GCSteps: r.gcSteps(est)}
+	r.clock(s, est)
 	return s
 }
 
@@ -856,6 +881,7 @@ func genC13(c *corpus, seed uint64) *scn.Scenario {
 	s.Sched = scn.Sched{Mode: 0, Seed: r.next()}
 	s.Knob = r.knob(knobs)
 	s.Faults = scn.Faults{Seed: r.next()}
+	r.clock(s, int64(200*len(s.Inputs[0].Src)*(1+len(s.History))))
 	return s
 }
 
@@ -892,6 +918,7 @@ func genC18(c *corpus, seed uint64) *scn.Scenario {
 		s.Knob = r.knob(parseKnobs)
 		s.Sched = r.schedule(estSteps(s.Inputs, s.Tasks), nt)
 		s.Faults = scn.Faults{Seed: r.next()}
+		r.clock(s, estSteps(s.Inputs, s.Tasks))
 		return s
 	}
 	s.Kind = "pools"
@@ -977,6 +1004,7 @@ func genC18(c *corpus, seed uint64) *scn.Scenario {
 		s.Sched.SiteClass = "pool"
 	}
 	s.Faults = scn.Faults{Seed: r.next()}
+	r.clock(s, int64(total*12+100))
 	return s
 }
 
